@@ -92,3 +92,45 @@ Definition c16_resp_ok (redir : N) (idle : Z) (ty status : N) (raw : bytes) : bo
         end
       else false
   end.
+
+(** C06 *)
+(** The declared payload of a client DATA body per MS-TSGU: cbDataLen bytes
+    after the length field; when fewer bytes are carried, the bytes carried. *)
+Definition spec_payload (body : bytes) : bytes :=
+  match decode_data body with
+  | Some (p, _) => p
+  | None => skipn 2 body
+  end.
+
+(** A packet sent to the client must be one well-formed DATA packet; returns its payload. *)
+Definition spec_client_packet (raw : bytes) : option bytes :=
+  match decode_packet raw with
+  | Some pk =>
+      if (pk_type pk =? PKT_TYPE_DATA) && (pk_length pk =? blen raw) then
+        match decode_data (pk_body pk) with
+        | Some (p, []) => Some p
+        | _ => None
+        end
+      else None
+  | None => None
+  end.
+
+Fixpoint spec_client_stream (raws : list bytes) : option bytes :=
+  match raws with
+  | [] => Some []
+  | r :: rest =>
+      match spec_client_packet r, spec_client_stream rest with
+      | Some p, Some s => Some (p ++ s)
+      | _, _ => None
+      end
+  end.
+
+(** Both directions: bytes at the host = declared payloads in order; payloads of
+    the packets at the client = the host's stream. *)
+Definition c06_oracle (bodies : list bytes) (host_stream : bytes)
+           (at_host : bytes) (at_client : list bytes) : bool :=
+  bytes_eqb at_host (concat (map spec_payload bodies)) &&
+  match spec_client_stream at_client with
+  | Some s => bytes_eqb s host_stream
+  | None => false
+  end.
